@@ -1,0 +1,13 @@
+//go:build verif
+
+package generator
+
+import "github.com/EliCDavis/polyform/generator/graph"
+
+// VerifGraph exposes the application's graph instance to the verification
+// harness (the field is unexported and otherwise only reachable through the
+// HTTP edit server). Compiled only with the `verif` build tag.
+func VerifGraph(a *App) *graph.Instance {
+	a.initGraphInstance()
+	return a.graphInstance
+}
